@@ -220,6 +220,13 @@ func planSplitsHeader(p *rawpeer.SeqPlan) bool {
 	return false
 }
 
+// specialSegSizes: payload sizes at and next to the header size, powers of two that
+// are common internal buffer sizes, and the top of the 16-bit length field.
+var specialSegSizes = []int{1, 2, 7, 8, 9, 23, 24, 63, 64, 65, 255, 256, 511, 512, 513, 4095, 4096, 4097, 12287, 12288, 12289, 65534, 65535}
+
+// specialTimestamps wrap / sign boundaries of the 32-bit timestamp field.
+var specialTimestamps = []uint32{0, 1, 0x7fffffff, 0x80000000, 0xfffffffe, 0xffffffff}
+
 // genSegSize draws a segment payload size in 1..65535, biased to the boundaries.
 func genSegSize(rt *rapid.T, allowBig bool) int {
 	hi := 9
@@ -230,7 +237,7 @@ func genSegSize(rt *rapid.T, allowBig bool) int {
 	case 0, 1:
 		return rapid.IntRange(1, 16).Draw(rt, "size")
 	case 2:
-		return rapid.SampledFrom([]int{1, 2, 7, 8, 9, 23, 24, 255, 256}).Draw(rt, "size")
+		return rapid.SampledFrom(specialSegSizes[:len(specialSegSizes)-2]).Draw(rt, "size")
 	case 3, 4, 5:
 		return rapid.IntRange(17, 2048).Draw(rt, "size")
 	case 6:
